@@ -23,6 +23,7 @@ class _World(object):
         self.out = []
         self.inflight = {}
         self.running = []  # keys whose body is executing right now (stack)
+        self.running_tasks = []
         self.body_runs = {}  # id(task) -> count
         self.tasks = []  # every task ever returned (kept alive: ids stay unique)
         self.serial = 0
@@ -48,6 +49,7 @@ class _World(object):
         W.serial += 1
         serial = W.serial
         W.running.append(key)
+        W.running_tasks.append(t)
         try:
             sub = None
             depth = W.running.count(key)
@@ -59,21 +61,26 @@ class _World(object):
             nblocks = (a + b) % 3
             for i in range(nblocks):
                 W.running.pop()
+                W.running_tasks.pop()
                 try:
                     yield W.item(fnid + i, "b%d" % serial)
                 finally:
                     W.running.append(key)
+                    W.running_tasks.append(t)
             if sub is not None and W.case.get("await_reentrant", True):
                 W.running.pop()
+                W.running_tasks.pop()
                 try:
                     yield sub
                 finally:
                     W.running.append(key)
+                    W.running_tasks.append(t)
             if a == 3:
                 raise SimError("body-fails:%r#%d" % (key, serial))
             return "v:%r#%d" % (key, serial)
         finally:
             W.running.pop()
+            W.running_tasks.pop()
 
     def _make_fns(self):
         W = self
@@ -139,7 +146,7 @@ class _World(object):
         if m is not None and m.is_computed():
             m = None
             del self.inflight[key]
-        inside = key in self.running
+        inside = m is not None and any(m is x for x in self.running_tasks)
         if who != "body" and b == 2 and key not in self.reenter_budget:
             self.reenter_budget[key] = 1
         t = fn.asynq(*args, **kwargs)
